@@ -3,7 +3,9 @@
    driven one controller action at a time:
 
      QStart w op   writer thread w calls Update (op = false) or Delete (op = true) on an id no
-                   other call in flight uses (so no abort / retry can happen)
+                   other call in flight uses; the one exception: an Update of the id of a Delete
+                   that is parked after its first read, committed before that Delete goes on, so
+                   that the Delete takes its retry path (RDelRetry); no abort can happen
      QStep w       open the gate writer w is parked at (gau.read, coll.publish or del.read)
      QGet          a new goroutine calls Collection.Get
      QRecv k       the consumer of subscriber k starts one blocking receive
@@ -101,6 +103,11 @@ Definition writer_moves (ts : bool) (q : qstate) (w : nat) : list qstate :=
                         | None => [] end)
        [RUpdSave w; RDelTake w; RPublish w; RReturn w;
         RBus (LRLock w); RBus (LSelSendCtx w); RBus (LSelListenCtx w); RBus (LFinish w)]
+  (* Delete finds the item changed since its first read (the scripts provoke this with an Update of
+     the same id): Unlock, next attempt - the yield point del.retry is not a parking point *)
+  ++ (match rstep ts (qr q) (RDelRetry w) with
+      | Some C => [mkQ C (qwant q) (qpark q) (qgets q) (qf q)]
+      | None => [] end)
   (* delivery: the event goes into the forwarder's hands *)
   ++ (match sel_of (rb (qr q)) w with
       | Some l =>
